@@ -274,7 +274,7 @@ func Gen(seed int64, index int, o GenOpts) *Case {
 
 	// ---- timing plans
 	startSec := 0.0
-	switch pick(6) {
+	switch pick(8) {
 	case 0:
 		startSec = -10
 		c.Features["negstart"] = true
@@ -286,6 +286,15 @@ func Gen(seed int64, index int, o GenOpts) *Case {
 	case 3:
 		startSec = 95443.7 // 33-bit wrap of the 90 kHz clock happens at ~95443.7 s
 		c.Features["wrap33"] = true
+	case 6:
+		// a stream that has been running for 28.5 h: ticks x 1e9 leaves the int64 range at
+		// 9.22e9 ticks (102481 s at 90 kHz, 10 s earlier with the fMP4 offset) within the case
+		startSec = 102481.5 - float64(pick(12))
+		c.Features["ticks-ns-overflow"] = true
+	case 7:
+		// running for a month
+		startSec = 2.6e6 + float64(pick(100000))/7
+		c.Features["late-start"] = true
 	}
 	segMinSec := c.Cfg.SegMin.Seconds()
 	nSegs := o.MinSegments
